@@ -8,10 +8,20 @@ export GOFLAGS=-mod=mod GOPROXY=off GOSUMDB=off GOTOOLCHAIN=local CGO_ENABLED=1
 export GOMAXPROCS="${GOMAXPROCS:-$(nproc)}"
 ID="${1:?property id}"; MODE="${2:?quick|thorough|replay}"; shift 2
 mkdir -p bin evidence replays
+# Registered commands always build against /repo's working tree. Only background sweeps started with
+# `vp run --with-repo` set VP_RUN_REPO (a snapshot of /repo's HEAD) so that they are not disturbed by
+# seeded patches being applied to /repo meanwhile; their results are never used as evidence.
+MODFLAG=""
+if [ -n "${VP_RUN_REPO:-}" ] && [ -d "$VP_RUN_REPO/dnsrocks" ]; then
+  sed "s#=> /repo/dnsrocks#=> $VP_RUN_REPO/dnsrocks#" go.mod > bin/alt.mod
+  cp go.sum bin/alt.sum
+  MODFLAG="-modfile=$PWD/bin/alt.mod"
+  echo "note: building against the /repo snapshot $VP_RUN_REPO (background sweep, not evidence)"
+fi
 LOCK=bin/.build.lock
 build() { # $1 = output, rest = extra flags
   local out="$1"; shift
-  ( flock 9; go build -tags verif -ldflags=-checklinkname=0 "$@" -o "$out" ./cmd/vcheck ) 9>"$LOCK" 2>bin/build.$$.log
+  ( flock 9; go build $MODFLAG -tags verif -ldflags=-checklinkname=0 "$@" -o "$out" ./cmd/vcheck ) 9>"$LOCK" 2>bin/build.$$.log
   local rc=$?
   if [ $rc -ne 0 ]; then echo "BUILD FAILED ($out):"; cat bin/build.$$.log; rm -f bin/build.$$.log; exit 2; fi
   rm -f bin/build.$$.log
